@@ -1,6 +1,10 @@
 //! Item algebras driven through the real `Segtree`: two harness-defined lawful algebras (a finite
-//! non-commutative one that closes, and the free algebra) and the crate's built-in items; at the end
-//! `Via` / `Pair`, which put a harness item and a built-in item into one `Combinator` as independent parts.
+//! non-commutative one that closes, and the free algebra) and the crate's built-in items (the lazy sum also
+//! over small modular scalars, in which the element count of a node wraps); at the end `Via` / `Pair`, which
+//! put a harness item and a built-in item into one `Combinator` as independent parts.
+//!
+//! Search predicates (`Pred`) are offered per position and direction: `pred_ok_at` says whether a predicate is
+//! monotone along the searched side of a position — all the property asks of it.
 //!
 //! Trait surface.  The crate asks very little of an item or a modifier type today (`T: Clone`, `T: Default`
 //! for the searches, `T, M: Debug` for `debug()`), but it may tighten a bound without that being a defect.
@@ -36,6 +40,12 @@ pub enum Pred {
     VGe(i64),
     /// value <= t
     VLe(i64),
+    /// ANCHORED predicates: monotone along ONE searched side only.  "The block's first element is b and q holds":
+    /// for a search to the right the first element is fixed, so this is monotone along growing r whenever
+    /// q is, but it is not monotone under extension to the left (offered to `lower_bound` only)
+    FirstIs(u8, Box<Pred>),
+    /// mirror image: "the block's last element is b and q holds" (offered to `lower_bound_rev` only)
+    LastIs(u8, Box<Pred>),
     /// predicate on the first / second component of a Combinator
     L(Box<Pred>),
     R(Box<Pred>),
@@ -93,8 +103,15 @@ pub trait Alg: Sync + Send + 'static {
     fn fold(xs: &[Self::E]) -> Self::Obs;
     fn observe(t: &Self::T) -> Self::Obs;
     fn preds(n: usize) -> Vec<Pred>;
-    /// is p monotone along growing ranges of this particular array
-    fn pred_ok(_p: &Pred, _model: &[Self::E]) -> bool {
+    /// Further predicates for the explorations of this algebra ON ITS OWN (not handed on to the Combinator /
+    /// Pair / Via algebras built from it): the anchored ones, which are monotone along one searched side only.
+    fn extra_preds(_n: usize) -> Vec<Pred> {
+        vec![]
+    }
+    /// Is p inside the property's domain for a search from `pos` (rightwards if `fwd`, leftwards if not) on
+    /// this particular array, i.e. monotone along the ranges [pos..=r] growing to the right, resp. [l..=pos]
+    /// growing to the left?  Nothing is demanded of p on ranges that extend to the OTHER side of `pos`.
+    fn pred_ok_at(_p: &Pred, _model: &[Self::E], _pos: usize, _fwd: bool) -> bool {
         true
     }
     fn holds(p: &Pred, o: &Self::Obs) -> bool;
@@ -264,9 +281,35 @@ impl Alg for AlgW {
         v.extend([Pred::HasOne, Pred::TwoOnes, Pred::OneThenZero]);
         v
     }
+    /// "starts with a 1" (the answer is l itself or none) and "starts with a 1 and a 0 follows" (the answer
+    /// lies inside) for the search to the right; "ends with a 0" and "ends with a 0 and a 1 precedes it" for
+    /// the search to the left.  Whether they hold on a block says nothing about a block that reaches further
+    /// to the other side, so a search that consults such a block (the root, a whole node that is only partly
+    /// inside the searched side) returns a wrong index, not merely shows a wrong aggregate.
+    /// (Up to n = 6: the closure for n = 7 of the thorough tier is as large as the budget allows.)
+    fn extra_preds(n: usize) -> Vec<Pred> {
+        if n > 6 {
+            return vec![];
+        }
+        vec![
+            Pred::FirstIs(1, Box::new(Pred::LenGe(1))),
+            Pred::FirstIs(1, Box::new(Pred::OneThenZero)),
+            Pred::LastIs(0, Box::new(Pred::LenGe(1))),
+            Pred::LastIs(0, Box::new(Pred::OneThenZero)),
+        ]
+    }
+    fn pred_ok_at(p: &Pred, _model: &[u8], _pos: usize, fwd: bool) -> bool {
+        match p {
+            Pred::FirstIs(..) => fwd,
+            Pred::LastIs(..) => !fwd,
+            _ => true,
+        }
+    }
     fn holds(p: &Pred, o: &(u8, u64)) -> bool {
         let (len, bits) = *o;
         match p {
+            Pred::FirstIs(b, q) => len >= 1 && (bits & 1) as u8 == *b && Self::holds(q, o),
+            Pred::LastIs(b, q) => len >= 1 && ((bits >> (len - 1).min(63)) & 1) as u8 == *b && Self::holds(q, o),
             Pred::LenGe(k) => len as u16 >= *k,
             Pred::HasOne => bits != 0,
             Pred::TwoOnes => bits.count_ones() >= 2,
@@ -505,28 +548,35 @@ macro_rules! zmod {
     ($name:ident, $m:expr) => {
         #[derive(Clone, Copy, Debug, PartialEq, Eq, Hash, PartialOrd, Ord, Default)]
         pub struct $name(pub u8);
+        impl $name {
+            /// the modulus (up to 256: the arithmetic below is done in u16)
+            pub const M: u16 = $m;
+            fn red(x: u16) -> $name {
+                $name((x % Self::M) as u8)
+            }
+        }
         impl std::ops::Add for $name {
             type Output = $name;
             fn add(self, r: $name) -> $name {
-                $name((self.0 + r.0) % $m)
+                Self::red(self.0 as u16 + r.0 as u16)
             }
         }
         impl std::ops::Sub for $name {
             type Output = $name;
             fn sub(self, r: $name) -> $name {
-                $name((self.0 + $m - r.0 % $m) % $m)
+                Self::red(self.0 as u16 + Self::M - r.0 as u16 % Self::M)
             }
         }
         impl std::ops::Neg for $name {
             type Output = $name;
             fn neg(self) -> $name {
-                $name(($m - self.0 % $m) % $m)
+                Self::red(Self::M - self.0 as u16 % Self::M)
             }
         }
         impl std::ops::Mul for $name {
             type Output = $name;
             fn mul(self, r: $name) -> $name {
-                $name((self.0 * r.0) % $m)
+                Self::red(self.0 as u16 * r.0 as u16)
             }
         }
         impl std::ops::AddAssign for $name {
@@ -551,7 +601,7 @@ macro_rules! zmod {
         }
         impl From<u8> for $name {
             fn from(v: u8) -> $name {
-                $name(v % $m)
+                Self::red(v as u16)
             }
         }
         impl ZeroOne for $name {
@@ -560,12 +610,17 @@ macro_rules! zmod {
         }
         impl rlib_num_traits::MinMax for $name {
             const MIN: $name = $name(0);
-            const MAX: $name = $name($m - 1);
+            const MAX: $name = $name(($m - 1) as u8);
         }
     };
 }
+zmod!(Z2, 2);
 zmod!(Z3, 3);
 zmod!(Z4, 4);
+zmod!(Z5, 5);
+zmod!(Z7, 7);
+// a byte that wraps, as `std::num::Wrapping<u8>` does
+zmod!(Z256, 256);
 
 pub struct AlgSumZ3;
 impl Alg for AlgSumZ3 {
@@ -608,55 +663,76 @@ impl Alg for AlgSumZ3 {
     }
 }
 
-pub struct AlgSumAddZ4;
-impl Alg for AlgSumAddZ4 {
-    type T = SumAdd<Z4>;
-    type M = Z4;
-    type E = u8;
-    /// (sum, number of elements mod 4)
-    type Obs = (u8, u8);
-    const NAME: &'static str = "SumAdd<Z4>";
-    const DEFAULT_MOD_IS_IDENTITY: bool = true;
-    fn n_elems() -> usize {
-        2
-    }
-    fn elem(idx: usize, _f: &mut u32) -> u8 {
-        [0u8, 1][idx]
-    }
-    fn item(e: &u8) -> SumAdd<Z4> {
-        SumAdd::new(Z4(*e))
-    }
-    fn dirty_item(e: &u8) -> Option<SumAdd<Z4>> {
-        let mut t = SumAdd::new(Z4(*e));
-        t.md = Z4(1);
-        Some(t)
-    }
-    /// the last one is `Z4::default()`, the identity of an additive modifier
-    fn mods() -> Vec<Z4> {
-        vec![Z4(1), Z4(2), Z4(0)]
-    }
-    fn apply(e: &mut u8, m: &Z4) {
-        *e = (*e + m.0) % 4;
-    }
-    fn fold(xs: &[u8]) -> (u8, u8) {
-        (xs.iter().fold(0, |a, b| (a + b) % 4), (xs.len() % 4) as u8)
-    }
-    fn observe(t: &SumAdd<Z4>) -> (u8, u8) {
-        (t.v.0, t.len.0)
-    }
-    fn preds(_n: usize) -> Vec<Pred> {
-        vec![]
-    }
-    fn holds(_p: &Pred, _o: &(u8, u8)) -> bool {
-        unreachable!()
-    }
-    fn encode(t: &SumAdd<Z4>, out: &mut Vec<u8>) {
-        out.extend_from_slice(&[t.v.0, t.len.0, t.md.0]);
-    }
-    fn encode_elem(e: &u8, out: &mut Vec<u8>) {
-        out.push(*e);
-    }
+// `SumAdd<T>` keeps the NUMBER OF ELEMENTS of a node in the scalar type T (`len: T`, needed for v += md * len).
+// Over a scalar in which small integers wrap, an inner node's `len` can therefore equal the `len` of a leaf
+// (length = 1 mod m), of the empty aggregate (length = 0 mod m) or of any other node.  The explorations run
+// it over Z/m for m = 2, 3, 4, 5, 7 at sizes whose trees contain inner nodes of length = 0 and = 1 (mod m)
+// (see `main`), and the size sweep runs it over a wrapping byte (node lengths 256 and 257).
+macro_rules! sumadd_mod_alg {
+    ($alg:ident, $z:ident, $name:expr) => {
+        pub struct $alg;
+        impl Alg for $alg {
+            type T = SumAdd<$z>;
+            type M = $z;
+            type E = u8;
+            /// (sum, number of elements mod m)
+            type Obs = (u8, u8);
+            const NAME: &'static str = $name;
+            const DEFAULT_MOD_IS_IDENTITY: bool = true;
+            fn n_elems() -> usize {
+                2
+            }
+            fn elem(idx: usize, _f: &mut u32) -> u8 {
+                [0u8, 1][idx]
+            }
+            fn item(e: &u8) -> SumAdd<$z> {
+                SumAdd::new($z(*e))
+            }
+            fn dirty_item(e: &u8) -> Option<SumAdd<$z>> {
+                let mut t = SumAdd::new($z(*e));
+                t.md = $z(1);
+                Some(t)
+            }
+            /// +1, +2 (where 2 is not 0) and, last, the type's default 0, the identity of an additive modifier
+            fn mods() -> Vec<$z> {
+                let mut v = vec![$z(1)];
+                if $z::M > 2 {
+                    v.push($z(2));
+                }
+                v.push($z(0));
+                v
+            }
+            fn apply(e: &mut u8, m: &$z) {
+                *e = ($z(*e) + *m).0;
+            }
+            fn fold(xs: &[u8]) -> (u8, u8) {
+                (xs.iter().fold($z(0), |a, b| a + $z(*b)).0, (xs.len() % $z::M as usize) as u8)
+            }
+            fn observe(t: &SumAdd<$z>) -> (u8, u8) {
+                (t.v.0, t.len.0)
+            }
+            /// sums in Z/m are not ordered: no threshold is monotone
+            fn preds(_n: usize) -> Vec<Pred> {
+                vec![]
+            }
+            fn holds(_p: &Pred, _o: &(u8, u8)) -> bool {
+                unreachable!()
+            }
+            fn encode(t: &SumAdd<$z>, out: &mut Vec<u8>) {
+                out.extend_from_slice(&[t.v.0, t.len.0, t.md.0]);
+            }
+            fn encode_elem(e: &u8, out: &mut Vec<u8>) {
+                out.push(*e);
+            }
+        }
+    };
 }
+sumadd_mod_alg!(AlgSumAddZ2, Z2, "SumAdd<Z2>");
+sumadd_mod_alg!(AlgSumAddZ3, Z3, "SumAdd<Z3>");
+sumadd_mod_alg!(AlgSumAddZ4, Z4, "SumAdd<Z4>");
+sumadd_mod_alg!(AlgSumAddZ5, Z5, "SumAdd<Z5>");
+sumadd_mod_alg!(AlgSumAddZ7, Z7, "SumAdd<Z7>");
+sumadd_mod_alg!(AlgSumAddZ256, Z256, "SumAdd<Z256>");
 
 macro_rules! minmax_alg {
     ($alg:ident, $item:ident, $name:expr, $pick:ident, $pred:ident, $cmp:tt) => {
@@ -842,10 +918,23 @@ impl Alg for AlgSumAdd {
         v.extend((0..=3).map(Pred::VGe));
         v
     }
-    fn pred_ok(p: &Pred, model: &[i64]) -> bool {
+    /// A sum threshold over elements of both signs is in the domain of a search exactly when its truth
+    /// values along the searched side are monotone (false ... false true ... true): the sums of [pos..=r] for
+    /// growing r, resp. of [l..=pos] for falling l.  Elements on the other side of `pos` may be anything
+    /// (a large negative element before l makes the predicate false on the whole array and true on a block).
+    fn pred_ok_at(p: &Pred, model: &[i64], pos: usize, fwd: bool) -> bool {
         match p {
-            // a sum threshold is monotone along growing ranges only if no element is negative
-            Pred::VGe(_) => model.iter().all(|&x| x >= 0),
+            Pred::VGe(t) => {
+                let side: Vec<i64> = if fwd { model[pos..].to_vec() } else { model[..=pos].iter().rev().copied().collect() };
+                let (mut sum, mut seen_true) = (0i64, false);
+                side.iter().all(|x| {
+                    sum += x;
+                    let h = sum >= *t;
+                    let ok = h || !seen_true;
+                    seen_true |= h;
+                    ok
+                })
+            }
             _ => true,
         }
     }
@@ -919,10 +1008,10 @@ where
         v.extend(B::preds(n).into_iter().map(|p| Pred::R(Box::new(p))));
         v
     }
-    fn pred_ok(p: &Pred, model: &[A::E]) -> bool {
+    fn pred_ok_at(p: &Pred, model: &[A::E], pos: usize, fwd: bool) -> bool {
         match p {
-            Pred::L(q) => A::pred_ok(q, model),
-            Pred::R(q) => B::pred_ok(q, model),
+            Pred::L(q) => A::pred_ok_at(q, model, pos, fwd),
+            Pred::R(q) => B::pred_ok_at(q, model, pos, fwd),
             _ => unreachable!(),
         }
     }
@@ -1408,8 +1497,8 @@ impl<A: Alg, X: Tr<M = A::M>> Alg for ViaAlg<A, X> {
     fn preds(n: usize) -> Vec<Pred> {
         A::preds(n)
     }
-    fn pred_ok(p: &Pred, model: &[A::E]) -> bool {
-        A::pred_ok(p, model)
+    fn pred_ok_at(p: &Pred, model: &[A::E], pos: usize, fwd: bool) -> bool {
+        A::pred_ok_at(p, model, pos, fwd)
     }
     fn holds(p: &Pred, o: &A::Obs) -> bool {
         A::holds(p, o)
@@ -1611,10 +1700,10 @@ where
         v.extend(B::preds(n).into_iter().map(|p| Pred::R(Box::new(p))));
         v
     }
-    fn pred_ok(p: &Pred, model: &[Self::E]) -> bool {
+    fn pred_ok_at(p: &Pred, model: &[Self::E], pos: usize, fwd: bool) -> bool {
         match p {
-            Pred::L(q) => A::pred_ok(q, &unzip(model).0),
-            Pred::R(q) => B::pred_ok(q, &unzip(model).1),
+            Pred::L(q) => A::pred_ok_at(q, &unzip(model).0, pos, fwd),
+            Pred::R(q) => B::pred_ok_at(q, &unzip(model).1, pos, fwd),
             _ => unreachable!(),
         }
     }
